@@ -103,9 +103,9 @@ def row_for_pattern(pattern: str, variant=0):
     for i, t in enumerate(toks):
         last = i == len(toks) - 1
         if t == "*":
-            words.append("w%d" % i)
+            words.append("%s%d" % ("wv"[variant % 2], i))
         elif last and t == "~":
-            words.append("t%d" % i)
+            words.append("%s%d" % ("ts"[variant % 2], i))
         elif last and t == "...":
             words.append("more")
         elif t.startswith("*/") and t.endswith("/") and len(t) > 3:
@@ -174,8 +174,14 @@ def rules_by_level(rules, level=1, out=None):
     return out
 
 
+def has_default(rule) -> bool:
+    """some default row is defined somewhere inside this block pattern"""
+    return any((not c.ignore) or has_default(c) for c in rule.children)
+
+
 def universe(rules, neg_word):
-    """{level: [(row, kind)]}: kind D default row, P row matching a '!' pattern, H same head/other value (one per level,
+    """{level: [(row, kind)]}: kind D default row, P row matching a '!' pattern, Q a second row for the first '!' pattern
+    of the level that holds a default (two blocks matched by one rule), H same head/other value (one per level,
     from the first default of the level that carries a value),
     X default row with one more word (one per level: matches the default's pattern without being the default),
     N negated default (one per level), F foreign row (every level, also one level below the deepest rule)."""
@@ -195,6 +201,9 @@ def universe(rules, neg_word):
         for r in lv:
             if r.ignore:
                 add(row_for_pattern(r.row), "P")
+        first_block = next((r for r in lv if r.ignore and has_default(r)), None)
+        if first_block is not None:
+            add(row_for_pattern(first_block.row, 1), "Q")
         defaults = [r.row for r in lv if not r.ignore]
         multi = [d for d in defaults if valued(d, neg_word)]
         if multi:
